@@ -23,7 +23,7 @@ RULE = ("one run = one document of a class (pure gfa1 / pure gfa2 / neutral / mi
         "order, flush positions) digests")
 PROBES = ["pure", "neutral", "mixed_content", "mixed_vn", "mixed_param", "mixed_rgfa", "flush_midway",
           "flush_repeated", "queue_nonempty_at_decision", "failing_record_in_queue", "deciding_last",
-          "header_contradiction_offered"]
+          "header_contradiction_offered", "entry_clones"]
 
 OTHER1 = ["S\tzz9\t5\t*", "E\t*\tzz1+\tzz2-\t0\t1\t0\t1\t*", "G\t*\tzz1+\tzz2-\t5\t*", "U\tzz8\tzz1",
           "O\tzz7\tzz1+", "F\tzz1\tr+\t0\t1\t0\t1\t*", "X\tfoo"]
@@ -100,7 +100,8 @@ def gen(streams, tier, i):
         mode = modes[j % len(modes)] if sr.random() < 0.6 else "shuffle"
         perm = list(range(n)) if mode == "given" else adversarial(sr, lines, mode)
         perm = keep_o_order(lines, perm)
-        entry = sr.choice(["list", "str_nl", "incremental", "incremental", "incremental", "file_crlf"])
+        entry = sr.choice(["list", "str_nl", "incremental", "incremental", "incremental", "file_crlf"] +
+                          (["clones"] if klass == "pure" and vparam is None else []))
         flushes = []
         if entry == "incremental":
             for _ in range(sr.choice([0, 0, 1, 2, 3])):
@@ -212,7 +213,32 @@ def run(scn, st):
         if op.get("mode") == "deciding_last":
             st.count("probe.deciding_last")
         w = World(st)
-        if op["entry"] == "incremental":
+        if op["entry"] == "clones":
+            # the document is parsed once; copies of its lines (clone()) are added, in the scheduled order, to a
+            # Gfa that knows nothing yet: the content decides the version as it does for text
+            st.count("probe.entry_clones")
+            src = w.construct("list", lines, vlevel=cfg["vlevel"], dialect=cfg["dialect"])
+            if not src.ok:
+                continue
+            by_text = {}
+            for l in ob.listed_lines(src.value):
+                if not l.virtual:
+                    by_text.setdefault(gtext.canon_lines(ob.line_text(l), cfg["version"])[0], []).append(l)
+
+            def deliver_clones():
+                g_ = gfapy.Gfa(vlevel=cfg["vlevel"], dialect=cfg["dialect"])
+                for i_ in perm:
+                    key = gtext.canon_lines(lines[i_], cfg["version"])
+                    cand = by_text.get(key[0] if key else None)
+                    if cand:
+                        g_.add_line(cand[0].clone())
+                    else:
+                        g_.add_line(lines[i_])      # (headers / merged lines: as text)
+                g_.process_line_queue()
+                return g_
+            o = core.call(deliver_clones)
+            g, errs = (o.value, []) if o.ok else (None, [o])
+        elif op["entry"] == "incremental":
             g, errs = deliver_incremental(lines, perm, op, cfg, st)
         else:
             o = w.construct(op["entry"], [lines[i] for i in perm], vlevel=cfg["vlevel"], version=cfg["vparam"],
